@@ -92,9 +92,10 @@ def nodupNat : List Nat → Bool
   | [] => true
   | x :: xs => !xs.contains x && nodupNat xs
 
-/-- telemetry is down again and what it buffered has been flushed before `Start` returns -/
+/-- telemetry is down again and what it buffered — traces, startup logs — has been flushed before
+    `Start` returns -/
 def telemetryClean (sc : Scenario) (o : Obs) : Bool :=
-  !o.finMet && (!sc.tracing || (o.log.count .flush == 1 && precedes isFlush isRet o.log))
+  !o.finMet && !o.finHeld && (!sc.tracing || (o.log.count .flush == 1 && precedes isFlush isRet o.log))
 
 /-- "the first failure aborts startup leaving nothing running" -/
 def failedStartOk (sc : Scenario) (o : Obs) (failing : Option HB) : Bool :=
